@@ -46,7 +46,10 @@ class C01:
             return {"digest": "invalid", "trace": [], "nontrivial": False, "violation": None, "counters": {"invalid_spec": 1},
                     "sample": None}
         t_ref = X.tables(ref)
-        sim, outcome, res, _, log2 = X.run_simulated(spec, cfg["config"], seed, choices, knobs=cfg["knobs"])
+        try:
+            sim, outcome, res, _, log2 = X.run_simulated(spec, cfg["config"], seed, choices, knobs=cfg["knobs"])
+        except X.InvalidSpec:
+            return {"digest": "invalid", "trace": [], "nontrivial": False, "violation": None, "counters": {"invalid_spec": 1}, "sample": None}
         out = X.sim_summary(sim)
         started = sim.counters.get("process_started", 0)
         out["nontrivial"] = started > 0 and sim.n_switches > 0 and len(t_ref["interactions"]) > 0
